@@ -48,6 +48,10 @@ static TickitString *S[MAXO]; static int Sref[MAXO]; static int nS;
 static TickitRenderBuffer *B[MAXO]; static int Bref[MAXO]; static int nB;
 
 static int in_fd[2] = { -1, -1 };   /* `newin`: the terminal reads from in_fd[0] */
+/* `newtop`: the toplevel instance.  It owns the terminal and the root window; the application takes its own
+ * reference to each handle it keeps (tickit_window_ref(tickit_get_rootwin(t)), tickit_term_ref(tickit_get_term(t))) */
+static Tickit *TK; static int tk_refs;
+static int heldi(void);
 
 struct act { char kind; int arg; };
 struct beh { int used; int w; int ev; int ret; int id; int nacts; struct act acts[MAXA]; };
@@ -129,6 +133,7 @@ static void dump(void)
   for(int i = 0; i < nB; i++) obs("%d", alive(B[i]));
   if(!nB) obs("-");
   obs(" | T %d", alive(tt));
+  if(TK) obs(" | I %d", alive(TK));
 }
 
 /* ---- the operations a handler may also perform ------------------------------------------------ */
@@ -221,6 +226,30 @@ static int on_term_event(TickitTerm *term, TickitEventFlags flags, void *info, v
   return ret;
 }
 
+static int heldi(void) { return TK && tk_refs > 0 && alive(TK); }
+
+/* watches of the toplevel instance (tickit_watch_later / tickit_watch_timer_after_msec): behaviour tables again */
+struct wbeh { int used; int timer; int pending; void *watch; int nacts; struct act acts[MAXA]; };
+static struct wbeh WBEH[MAXB]; static int nWBEH;
+
+static int on_watch(Tickit *t, TickitEventFlags flags, void *info, void *user)
+{
+  (void)t; (void)info;
+  if(!(flags & TICKIT_EV_FIRE)) return 0;
+  struct wbeh *b = user;
+  b->pending = 0;
+  obs("%c%d ", b->timer ? 'M' : 'L', (int)(b - WBEH));
+  int n = b->nacts;
+  struct act acts[MAXA];
+  memcpy(acts, b->acts, sizeof acts);
+  for(int i = 0; i < n; i++) {
+    if(acts[i].kind == 't') { if(heldt()) { tt_refs--; tickit_term_unref(tt); } }
+    else if(acts[i].kind == 'T') { if(heldt()) { tt_refs++; tickit_term_ref(tt); } }
+    else simple_op(acts[i].kind, acts[i].arg, NULL);
+  }
+  return 0;
+}
+
 /* input tokens to bytes (the decoding is fixed in Model/LifeTop.lean `Tok`): a = 'a', A = ESC b, U = ESC [ A,
  * E = ESC, P/D/R<line>,<col> = X10 mouse report ESC [ M b x y (button 1 press / drag, release) */
 static size_t tokens_to_bytes(int argc, char **argv, int from, char *out, size_t cap)
@@ -255,7 +284,9 @@ static void engine_begin(void)
   memset(BEH, 0, sizeof BEH);
   memset(PBEH, 0, sizeof PBEH); nPBEH = 0;
   memset(TBEH, 0, sizeof TBEH); nTBEH = 0;
+  memset(WBEH, 0, sizeof WBEH); nWBEH = 0;
   in_fd[0] = in_fd[1] = -1; fake_ms = 0;
+  TK = NULL; tk_refs = 0;
 }
 
 static void engine_end(void) { }
@@ -273,6 +304,7 @@ static void drop_all(void)
   for(int i = nB - 1; i >= 0; i--)
     while(heldb(i)) { Bref[i]--; tickit_renderbuffer_unref(B[i]); }
   while(heldt()) { tt_refs--; tickit_term_unref(tt); }
+  while(heldi()) { tk_refs--; tickit_unref(TK); }
 }
 
 static int __attribute__((noinline)) leak_check(void)
@@ -283,6 +315,8 @@ static int __attribute__((noinline)) leak_check(void)
   memset(BEH, 0, sizeof BEH);
   memset(PBEH, 0, sizeof PBEH);
   memset(TBEH, 0, sizeof TBEH);
+  memset(WBEH, 0, sizeof WBEH);
+  TK = NULL;
   return __lsan_do_recoverable_leak_check() ? 1 : 0;
 }
 
@@ -319,6 +353,21 @@ static void engine_op(int argc, char **argv)
 {
   const char *op = argv[0];
 #define A(k) (argc > (k) ? atoi(argv[k]) : 0)
+  if(strcmp(op, "newtop") == 0) {
+    int lines = argc > 1 ? A(1) : 10, cols = argc > 2 ? A(2) : 20;
+    if(pipe(in_fd) != 0) { obs("bad-op"); return; }
+    fcntl(in_fd[0], F_SETFL, O_NONBLOCK);
+    tt = tickit_term_build(&(struct TickitTermBuilder){ .termtype = "xterm", .open = TICKIT_OPEN_FDS,
+        .input_fd = in_fd[0], .output_fd = -1, .output_func = outf });
+    tickit_term_set_size(tt, lines, cols);
+    TK = tickit_build(&(struct TickitBuilder){ .tt = tt });      /* takes over the reference to tt */
+    if(!TK) { obs("bad-op"); return; }
+    tk_refs = 1;
+    tt = tickit_term_ref(tickit_get_term(TK)); tt_refs = 1;
+    W[0] = tickit_window_ref(tickit_get_rootwin(TK)); Wref[0] = 1; Wparent[0] = -1; nW = 1;
+    obs("ok"); dump();
+    return;
+  }
   if(strcmp(op, "new") == 0 || strcmp(op, "newmock") == 0 || strcmp(op, "newin") == 0) {
     int lines = argc > 1 ? A(1) : 10, cols = argc > 2 ? A(2) : 20;
     if(strcmp(op, "newmock") == 0) {
@@ -537,6 +586,47 @@ static void engine_op(int argc, char **argv)
     obs("ret=%d", r); dump(); return;
   }
   if(strcmp(op, "tick") == 0 && argc == 2) { fake_ms += A(1); obs("ok"); dump(); return; }
+  /* ---- the toplevel instance */
+  if(strcmp(op, "iref") == 0) {
+    if(!heldi()) { obs("skip"); dump(); return; }
+    tk_refs++; tickit_ref(TK); obs("ok"); dump(); return;
+  }
+  if(strcmp(op, "iunref") == 0) {
+    if(!heldi()) { obs("skip"); dump(); return; }
+    tk_refs--; tickit_unref(TK); obs("ok"); dump(); return;
+  }
+  if((strcmp(op, "ilater") == 0 && argc >= 1) || (strcmp(op, "itimer") == 0 && argc >= 2)) {
+    if(!heldi() || nWBEH >= MAXB) { obs("skip"); dump(); return; }
+    struct wbeh *b = &WBEH[nWBEH++];
+    b->used = 1; b->timer = op[1] == 't'; b->pending = 1; b->nacts = 0;
+    for(int k = b->timer ? 2 : 1; k < argc && b->nacts < MAXA; k++) {
+      b->acts[b->nacts].kind = argv[k][0];
+      b->acts[b->nacts].arg = atoi(argv[k] + 1);
+      b->nacts++;
+    }
+    if(b->timer) b->watch = tickit_watch_timer_after_msec(TK, A(1), 0, on_watch, b);
+    else b->watch = tickit_watch_later(TK, 0, on_watch, b);
+    obs("ok"); dump(); return;
+  }
+  if(strcmp(op, "icancel") == 0 && argc == 2) {
+    int k = A(1);
+    if(!heldi() || k < 0 || k >= nWBEH || !WBEH[k].pending) { obs("skip"); dump(); return; }
+    WBEH[k].pending = 0;
+    tickit_watch_cancel(TK, WBEH[k].watch);
+    obs("ok"); dump(); return;
+  }
+  if(strcmp(op, "itick") == 0) {
+    char bytes[512];
+    size_t n = tokens_to_bytes(argc, argv, 1, bytes, sizeof bytes);
+    if(n == (size_t)-1) { obs("bad-op"); return; }
+    if(!heldi()) { obs("skip"); dump(); return; }
+    if(n && write(in_fd[1], bytes, n) != (ssize_t)n) { obs("bad-op"); return; }
+    /* what is queued for the windows is carried out first, so that the order in which the instance's deferred
+     * calls run does not show in the window tree (Model/LifeTop.lean) */
+    tickit_window_flush(tickit_get_rootwin(TK));
+    tickit_tick(TK, TICKIT_RUN_NOHANG | TICKIT_RUN_NOSETUP);
+    obs("ok"); dump(); return;
+  }
   /* ---- strings */
   if(strcmp(op, "str") == 0 && argc == 2) {
     unsigned char *bytes; long n = hex_decode(argv[1], &bytes);
